@@ -130,7 +130,8 @@ Record InvW (c : tcfg) (s : tsk) (off : list N) : Prop := {
   w_set : forall x, In x (sk_entries s) <-> In x off /\ 0 < x /\ x < t_theta s;
   w_theta : t_theta s <= theta0 c;
   w_lg : lg_wf c (t_lg_cur s);
-  w_est : t_theta s < theta0 c -> 2 ^ c_lg_nom c < N.of_nat (length (qual c off))
+  w_est : t_theta s < theta0 c -> 2 ^ c_lg_nom c < N.of_nat (length (qual c off));
+  w_pos : 0 < theta0 c -> 0 < t_theta s
 }.
 
 Definition InvC (c : tcfg) (s : tsk) (off : list N) : Prop :=
@@ -142,7 +143,7 @@ Definition Inv (c : tcfg) (s : tsk) (off : list N) : Prop :=
 
 (* the invariant does not look at the emptiness flag *)
 Lemma InvW_mark : forall c s off, InvW c s off -> InvW c (mark_offered s) off.
-Proof. intros c s off [H1 H2 H3 H4 H5 H6 H7]. constructor; assumption. Qed.
+Proof. intros c s off [H1 H2 H3 H4 H5 H6 H7 H8]. constructor; assumption. Qed.
 
 Lemma entries_NoDup : forall c s off, InvW c s off -> NoDup (sk_entries s).
 Proof. intros c s off H. unfold sk_entries. apply OA_values_NoDup. apply (w_oa _ _ _ H). Qed.
@@ -252,6 +253,7 @@ Proof.
   - unfold theta0. lia.
   - now apply init_lg_wf.
   - unfold theta0. lia.
+  - unfold theta0. lia.
   - lia.
   - reflexivity.
 Qed.
@@ -263,7 +265,7 @@ Lemma resize_inv : forall c s off, cfg_ok c -> InvW c s off ->
              Permutation (sk_entries s) (sk_entries s').
 Proof.
   intros c s off Hc HW Hbelow Hcount.
-  destruct HW as [Hcfg HOA Hn Hset Hth Hlg Hest].
+  destruct HW as [Hcfg HOA Hn Hset Hth Hlg Hest Hpos0].
   destruct Hlg as [H5 [Hle Hrf]].
   assert (Hrf0 : c_rf c <> 0) by (intro Z; specialize (Hrf Z); lia).
   destruct (pow2_split (t_lg_cur s) H5) as [m [Em Hm]].
@@ -286,6 +288,7 @@ Proof.
     + exact Hth.
     + exact Hwf.
     + exact Hest.
+    + exact Hpos0.
     + rewrite (get_capacity_exact c new_lg Hc Hwf).
       assert (Hp : 2 * 2 ^ t_lg_cur s <= 2 ^ new_lg).
       { rewrite <- pow2_succ. apply pow2_mono. lia. }
@@ -309,7 +312,7 @@ Lemma rebuild_inv : forall c s off, cfg_ok c -> InvW c s off ->
 Proof.
   intros c s off Hc HW Hlgmax Hmany.
   pose proof (entries_NoDup _ _ _ HW) as ND.
-  destruct HW as [Hcfg HOA Hn Hset Hth Hlg Hest].
+  destruct HW as [Hcfg HOA Hn Hset Hth Hlg Hest Hpos0].
   assert (Hk : (N.to_nat (2 ^ c_lg_nom c) < length (sk_entries s))%nat) by lia.
   destruct (k_smallest (sk_entries s) (N.to_nat (2 ^ c_lg_nom c)) ND Hk) as [Hthin [Hmem [NDl Hlen]]].
   cbv zeta in *.
@@ -335,6 +338,7 @@ Proof.
       assert ((length (sk_entries s) <= length (qual c off))%nat).
       { apply Hq. intros x Hx. apply Hset in Hx. split; [tauto|]. split; [tauto|lia]. }
       lia.
+    + intros _. lia.
     + rewrite (get_capacity_exact c _ Hc Hlg), Hlgmax, pow2_succ.
       destruct (pow2_split (c_lg_nom c) (lgnom_ge5 c Hc)) as [m [Em Hm]]. rewrite Em.
       destruct (c_lg_nom c + 1 <=? c_lg_nom c); lia.
@@ -354,7 +358,7 @@ Proof.
   change (t_theta s) with (t_theta s0).
   unfold sk_update. cbv zeta. fold s0.
   clearbody s0. clear HW0 Hcap0 s. rename s0 into s.
-  pose proof HW as [Hcfg HOA Hn Hset Hth Hlg Hest].
+  pose proof HW as [Hcfg HOA Hn Hset Hth Hlg Hest Hpos0].
   assert (Hsame : (t_theta s <= h \/ h = 0 \/ In h (sk_entries s)) -> Inv c s (h :: off)).
   { intros Hcase. split; [split; [|exact Hcap]|exact He0]. constructor; try assumption.
     - intros x. rewrite Hset. cbn [In]. split; [tauto|]. intros [[<-|Hin] [H0 Hlt]]; [|tauto].
@@ -388,7 +392,8 @@ Proof.
         fold (sk_entries s). apply Hset. tauto.
     - exact Hth.
     - exact Hlg.
-    - intros Hlt'. specialize (Hest Hlt'). pose proof (qual_mono c off h). lia. }
+    - intros Hlt'. specialize (Hest Hlt'). pose proof (qual_mono c off h). lia.
+    - exact Hpos0. }
   change (get_capacity (t_lg_cur s1) (c_lg_nom (t_cfg s1))) with (get_capacity (t_lg_cur s) (c_lg_nom (t_cfg s))).
   change (t_n s1) with (t_n s + 1). change (t_lg_cur s1) with (t_lg_cur s). change (t_cfg s1) with (t_cfg s).
   rewrite Hcfg.
@@ -421,7 +426,7 @@ Lemma trim_inv : forall c s off, cfg_ok c -> Inv c s off ->
        t_n s' = 2 ^ c_lg_nom c /\
        Permutation (firstn (N.to_nat (2 ^ c_lg_nom c)) (sortN (sk_entries s))) (sk_entries s')).
 Proof.
-  intros c s off Hc [[HW Hcap] Hemp]. pose proof HW as [Hcfg HOA Hn Hset Hth Hlg Hest].
+  intros c s off Hc [[HW Hcap] Hemp]. pose proof HW as [Hcfg HOA Hn Hset Hth Hlg Hest Hpos0].
   unfold sk_trim. rewrite Hcfg.
   destruct (N.ltb_spec (2 ^ c_lg_nom c) (t_n s)) as [Hmany|Hfew].
   - assert (Hlgmax : t_lg_cur s = c_lg_nom c + 1).
